@@ -9,7 +9,7 @@ import (
 )
 
 func main() {
-	p, err := core.Load("/repo", "linux")
+	p, err := core.Load(func() string { if d := os.Getenv("DBG_REPO"); d != "" { return d }; return "/repo" }(), "linux")
 	if err != nil {
 		panic(err)
 	}
